@@ -12,15 +12,15 @@ token text (both are slices of the input buffer).
 
 * `C14_roundtrip` — round trip for the default string lexer with whitespace skipping on or off (no
   Layout rule), any recognizers, partial parsing on or off, every input.
-* `C14_roundtrip_layout` — round trip under a user Layout rule, for every input that passes the
-  executable check `LayoutCert.check` (`Model/LayoutCert.lean`; the driver evaluates it per input):
-  layout is never parsed where a state of the main automaton finds a token, a second layout parse
-  where one ended consumes nothing, and a failing layout parse has not advanced.  Without it the
-  identity is FALSE of the code as it is (`C14_counterexample_relex_layout_discarded`,
-  `C14_counterexample_failed_layout_advances`: known findings C14-N1, C14-N2); inputs outside the
-  check stay decided by oracle + correspondence.
+* `C14_roundtrip_layout` — round trip under a user Layout rule, every input, no hypothesis on the
+  input: only the table certificates and the static `LayoutCert.autoOk` (the layout automaton is one
+  of the table's automata and its symbol is a nonterminal).  This is a theorem about the code AFTER
+  the repairs of the known findings C14-N1 (layout skipped when the lexer is re-run after a reduce is
+  merged into the layout ahead, `mergeLay`) and C14-N2 (a failed or empty layout parse leaves the
+  position where it was).  For the code before them (`Model/LROld.lean`, frozen) the identity is
+  false: `C14_counterexample_relex_layout_discarded`, `C14_counterexample_failed_layout_advances`.
 * `C14_layout_is_whitespace`, `C14_layout_is_layout_sentence` — what is stored as layout is
-  whitespace / a sentence of the Layout rule tiled by adjacent tokens (no extra hypothesis).
+  whitespace / a concatenation of sentences of the Layout rule, each tiled by adjacent tokens.
 * `C14_insertion_invariant_path` (= `C14_insertion_statement`), `C14_insertion_invariant` — changing
   the whitespace between the tokens of an accepted input does not change the tree (kinds,
   productions, token texts), for the default lexer without a Layout rule.
@@ -51,21 +51,22 @@ example : Example.env.custom = none ∧ Example.env.t.layoutState = none ∧
     Example.isOk (parse Example.env false 100).2 = true := by decide
 
 /-- **Round trip under a user Layout rule.**  String lexer (no whitespace skipping: the generator
-    switches it off when the grammar has a Layout rule), any recognizers, partial parsing on or off.
-    If the executable check `LayoutCert.check` passes for (table, input, fuel) and the parser returns
-    `ok r` in final context `ctx`, then the leaves of `r.tree` with their stored layout, followed by
-    the layout parsed before the end, are exactly the consumed input `input[0, ctx.pos)`; and without
-    the trailing layout they are exactly the input up to the end of the last token. -/
+    switches it off when the grammar has a Layout rule), any recognizers, any input, partial parsing
+    on or off.  If the parser returns `ok r` in final context `ctx`, then the leaves of `r.tree` with
+    their stored layout, followed by the layout parsed before the end, are exactly the consumed input
+    `input[0, ctx.pos)`; and without the trailing layout they are exactly the input up to the end of
+    the last token.  `LayoutCert.autoOk` is a property of the table alone. -/
 theorem C14_roundtrip_layout (env : Env) (hc : env.custom = none) (hsk : env.skipWs = false)
     (ls : Nat) (hl : env.t.layoutState = some ls)
     (hr : RecogOk env) (hstop : Cert.noShiftStop env.t = true)
     (hcert : Cert.structural env.g env.t (autosOf env.g env.t) = true)
-    (partialParse : Bool) (fuel : Nat) (hlay : LayoutCert.check env ls fuel = true)
+    (hau : LayoutCert.autoOk env.g env.t ls = true)
+    (partialParse : Bool) (fuel : Nat)
     (ctx : Ctx) (r : ParseResult) (h : parse env partialParse fuel = (ctx, .ok r)) :
     Tree.flat env.input r.tree ++ layBytes env.input ctx.lay = env.input.take ctx.pos.pos ∧
     Tree.flat env.input r.tree = env.input.take (endOf r.hist) :=
   parse_roundtrip_layout env hc hsk ls hl hr (C13.noShiftStop_sound _ hstop)
-    (Cert.structural_sound _ _ _ hcert) partialParse fuel hlay ctx r h
+    (Cert.structural_sound _ _ _ hcert) hau partialParse fuel ctx r h
 
 /-- non-vacuity: `S: Ta S | EMPTY; Layout: LayoutItem+; LayoutItem: WS;` on "a  a " -/
 example : ExampleLayout.Ws.env.custom = none ∧ ExampleLayout.Ws.env.skipWs = false ∧
@@ -73,18 +74,26 @@ example : ExampleLayout.Ws.env.custom = none ∧ ExampleLayout.Ws.env.skipWs = f
     Cert.noShiftStop ExampleLayout.Ws.env.t = true ∧
     Cert.structural ExampleLayout.Ws.env.g ExampleLayout.Ws.env.t
       (autosOf ExampleLayout.Ws.env.g ExampleLayout.Ws.env.t) = true ∧
-    LayoutCert.check ExampleLayout.Ws.env 4 100 = true ∧
+    LayoutCert.autoOk ExampleLayout.Ws.env.g ExampleLayout.Ws.env.t 4 = true ∧
     flatOf ExampleLayout.Ws.env false 100 = some ([97, 32, 32, 97, 32], [97, 32, 32, 97, 32]) := by
   decide +kernel
 
 example : RecogOk ExampleLayout.Ws.env := Ws.recogOk
 
-/-- **The Layout-rule round trip is false without `LayoutCert.notToken`** (known finding C14-N1).
+/-- the witnesses of the two findings on the repaired loop: `a##x` is accepted and reconstructs
+    `a##x` (the `##` skipped on re-lexing is stored before `x`); `a( b` with partial parsing returns the
+    prefix `a`, consumed input `a` -/
+example : flatOf ExampleLayout.N1.env false 100 = some ([97, 35, 35, 120], [97, 35, 35, 120]) ∧
+    flatOf ExampleLayout.N2.env true 100 = some ([97], [97]) := by decide +kernel
+
+/-- **Before the repair of C14-N1 the Layout-rule round trip was false** (`parseOld`: the loop as it
+    was at repo 8db9d03, `Model/LROld.lean`).
     `S: A X | C A D; A: Ta; Layout: L; D: '#'; L: '##'` on `a##x`, table as rustemo builds it: every
-    other hypothesis of `C14_roundtrip_layout` holds, the parse is accepted, the leaves with their
-    layout reconstruct `ax`, the consumed input is `a##x` (`#` is found in the state after `a`, `A`
-    is reduced, the new state expects only `x`, the layout parser run on re-lexing consumes `##`, and
-    the layout ahead is reset to what it was before the re-lex). -/
+    hypothesis of `C14_roundtrip_layout` holds; of the per-offset conditions of `Model/LayoutCert.lean`
+    `idempotent` and `failStays` hold and `notToken` fails (`#` is a token where `##` is layout); the
+    parse is accepted, the leaves with their layout reconstruct `ax`, the consumed input is `a##x`
+    (`#` is found in the state after `a`, `A` is reduced, the new state expects only `x`, the layout
+    parser run on re-lexing consumes `##`, and the layout ahead is reset to what it was before). -/
 theorem C14_counterexample_relex_layout_discarded :
     (ExampleLayout.N1.env.custom = none ∧ ExampleLayout.N1.env.skipWs = false ∧
      ExampleLayout.N1.env.t.layoutState = some 8 ∧
@@ -95,17 +104,17 @@ theorem C14_counterexample_relex_layout_discarded :
      LayoutCert.idempotent ExampleLayout.N1.env 8 100 = true ∧
      LayoutCert.failStays ExampleLayout.N1.env 8 100 = true ∧
      LayoutCert.notToken ExampleLayout.N1.env 8 100 = false) ∧
-    ∃ ctx r, parse ExampleLayout.N1.env false 100 = (ctx, .ok r) ∧
+    ∃ ctx r, parseOld ExampleLayout.N1.env false 100 = (ctx, .ok r) ∧
       Tree.flat ExampleLayout.N1.input r.tree ++ layBytes ExampleLayout.N1.input ctx.lay = [97, 120] ∧
       ExampleLayout.N1.input.take ctx.pos.pos = [97, 35, 35, 120] := by
   refine ⟨by decide +kernel, ?_⟩
-  exact flatOf_spec ExampleLayout.N1.env false 100 _ _ (by decide +kernel)
+  exact flatOfOld_spec ExampleLayout.N1.env false 100 _ _ (by decide +kernel)
 
-/-- **… and without `LayoutCert.failStays`** (known finding C14-N2).
+/-- **… and before the repair of C14-N2.**
     `S: A Bopt; A: Ta; Bopt: Tb | EMPTY; Layout: LP WS RP` on `a( b` with partial parsing: the layout
-    parser shifts `(` and the blank, fails at `b`, and leaves the position there; the synthetic STOP
-    lets `A` be reduced, the lexer re-run at the advanced position finds `b`.  Leaves: `ab`,
-    consumed input: `a( b`. -/
+    parser shifts `(` and the blank, fails at `b`, and left the position there (`failStays` fails); the
+    synthetic STOP lets `A` be reduced, the lexer re-run at the advanced position finds `b`.  Leaves:
+    `ab`, consumed input: `a( b`. -/
 theorem C14_counterexample_failed_layout_advances :
     (ExampleLayout.N2.env.custom = none ∧ ExampleLayout.N2.env.skipWs = false ∧
      ExampleLayout.N2.env.t.layoutState = some 6 ∧
@@ -116,21 +125,22 @@ theorem C14_counterexample_failed_layout_advances :
      LayoutCert.idempotent ExampleLayout.N2.env 6 100 = true ∧
      LayoutCert.notToken ExampleLayout.N2.env 6 100 = true ∧
      LayoutCert.failStays ExampleLayout.N2.env 6 100 = false) ∧
-    ∃ ctx r, parse ExampleLayout.N2.env true 100 = (ctx, .ok r) ∧
+    ∃ ctx r, parseOld ExampleLayout.N2.env true 100 = (ctx, .ok r) ∧
       Tree.flat ExampleLayout.N2.input r.tree ++ layBytes ExampleLayout.N2.input ctx.lay = [97, 98] ∧
       ExampleLayout.N2.input.take ctx.pos.pos = [97, 40, 32, 98] := by
   refine ⟨by decide +kernel, ?_⟩
-  exact flatOf_spec ExampleLayout.N2.env true 100 _ _ (by decide +kernel)
+  exact flatOfOld_spec ExampleLayout.N2.env true 100 _ _ (by decide +kernel)
 
 /-- **The stored layout is whitespace** (default skipping, no Layout rule; skipping on or off).
     `Tree.AllLay P t`: every layout slice stored in `t` satisfies `P`; `WsSlice input s`: the bytes of
     the slice are a sequence of whole whitespace characters (`char::is_whitespace` in UTF-8, as
     `wsCharLen` decodes them).  Also for the layout skipped before the end. -/
 theorem C14_layout_is_whitespace (env : Env) (hc : env.custom = none) (hl : env.t.layoutState = none)
+    (hr : RecogOk env) (hstop : Cert.noShiftStop env.t = true)
     (partialParse : Bool) (fuel : Nat) (ctx : Ctx) (r : ParseResult)
     (h : parse env partialParse fuel = (ctx, .ok r)) :
     r.tree.AllLay (WsSlice env.input) ∧ ∀ s, ctx.lay = some s → WsSlice env.input s :=
-  parse_layout_is_ws env hc hl partialParse fuel ctx r h
+  parse_layout_is_ws env hc hl hr (C13.noShiftStop_sound _ hstop) partialParse fuel ctx r h
 
 /-- what `AllLay` says at a leaf -/
 theorem C14_allLay_leaf (P : Slice → Prop) (k : Nat) (sp : Span) (v s : Slice)
@@ -138,13 +148,15 @@ theorem C14_allLay_leaf (P : Slice → Prop) (k : Nat) (sp : Span) (v s : Slice)
 
 /-- non-vacuity: `S: 'a' S | EMPTY` on "a a" stores the blank before the second `a` -/
 example : Example.env.custom = none ∧ Example.env.t.layoutState = none ∧
+    Cert.noShiftStop Example.env.t = true ∧
     flatOf Example.env false 100 = some ([97, 32, 97], [97, 32, 97]) := by decide +kernel
 
-/-- **The stored layout is a sentence of the Layout rule.**  `LayoutSentence env lsym s`: there are a
-    derivation tree of the grammar with root `lsym` (the symbol of the layout automaton, a nonterminal)
-    and tokens, each a match of its recognizer, adjacent to each other, covering exactly the slice `s`,
-    whose kinds are the tree's yield.  Holds for every accepted parse — also where `LayoutCert.check`
-    fails (there layout may be LOST, but what is stored is still layout). -/
+/-- **The stored layout is layout.**  `LaySlice env lsym s`: the slice `s` is a concatenation of one or
+    more `LaySentence`s of `lsym` (the symbol of the layout automaton, a nonterminal): for each there are
+    a derivation tree of the grammar with root `lsym` and tokens, each a match of its recognizer,
+    adjacent to each other, covering exactly that part of the slice, whose kinds are the tree's yield.
+    One sentence per run of the layout parser ("layout once per token"); more than one only where the
+    lexer was re-run after a reduce and skipped more layout, which is merged (`mergeLay`). -/
 theorem C14_layout_is_layout_sentence (env : Env) (hc : env.custom = none) (hsk : env.skipWs = false)
     (ls : Nat) (hl : env.t.layoutState = some ls)
     (hr : RecogOk env) (hstop : Cert.noShiftStop env.t = true)
@@ -153,13 +165,10 @@ theorem C14_layout_is_layout_sentence (env : Env) (hc : env.custom = none) (hsk 
     (partialParse : Bool) (fuel : Nat) (ctx : Ctx) (r : ParseResult)
     (h : parse env partialParse fuel = (ctx, .ok r)) :
     ∃ au ∈ autosOf env.g env.t, au.start = ls ∧ env.g.nterms ≤ au.sym ∧
-      r.tree.AllLay (LayoutSentence env au.sym) ∧
-      ∀ s, ctx.lay = some s → LayoutSentence env au.sym s :=
+      r.tree.AllLay (LaySlice env au.sym) ∧
+      ∀ s, ctx.lay = some s → LaySlice env au.sym s :=
   parse_layout_is_sentence env hc hsk hr (C13.noShiftStop_sound _ hstop) ls hl
     (Cert.structural_sound _ _ _ hcert) hau partialParse fuel ctx r h
-
-/-- non-vacuity (the other hypotheses are those of `C14_roundtrip_layout`, shown above) -/
-example : LayoutCert.autoOk ExampleLayout.Ws.env.g ExampleLayout.Ws.env.t 4 = true := by decide +kernel
 
 /-- **Layout insertion invariance** (default string lexer, no Layout rule, whitespace skipping on or
     off).  Two inputs are parsed with the same grammar, table and settings.  `Aligned env1 env2 R`:
